@@ -582,6 +582,17 @@ def ob_simu(physics, et, algo):
         a = np.asarray(ref.Solve())
         b = np.asarray(wf.Solve())
         worst = max(worst, float(np.abs(a - b).max() / max(np.abs(a).max(), 1e-30)))
+        if algo != "elliptic":
+            ref.Save_Iter()
+            wf.Save_Iter()
+    if algo != "elliptic":
+        # a restart: both simulations go back to their first stored step and march on -- displacement, speed and acceleration stay those of the dedicated simulation
+        for s in (ref, wf):
+            s.Set_Iter(0)
+        for step in range(2):
+            a = np.asarray(ref.Solve())
+            b = np.asarray(wf.Solve())
+            worst = max(worst, float(np.abs(a - b).max() / max(np.abs(a).max(), 1e-30)))
     if worst > 1e-10:
         raise Refuted(f"WeakForms {physics} ({algo}) on {et}: solution differs from the dedicated simulation by {worst:.3e}", cex=dict(elemType=et, algo=algo),
                       signature=f"simu:{physics}:{algo}", replay=dict(confirmed=True, rel_err=worst))
